@@ -69,6 +69,11 @@ Definition content_bytes (items : list item) (k : nat) : nat := byte_len (erase 
 Definition source_bytes (items : list item) (k : nat) : nat := fold_right Nat.add 0 (map it_src (firstn k items)).
 Definition escapes_before (items : list item) (k : nat) : bool := existsb it_esc (firstn k items).
 
+(* source bytes of the whole content; bytes of the opening and closing quote runs of a string with n quote characters
+   (an even run is the empty string: nothing follows it) *)
+Definition all_src (items : list item) : nat := source_bytes items (length items).
+Definition quote_bytes (n : nat) : nat := if Nat.even n then n else 2 * n.
+
 (* an error over content characters [k1, k2) of a string token at `tok` with n quote characters:
    what the code reports (interp_rebase over content byte offsets) / where that text is in the source *)
 Definition interp_reported (tok : span) (items : list item) (k1 k2 : nat) : span :=
@@ -105,4 +110,14 @@ Definition predict_reported (T : tables) (txt : str) (off_s off_e : nat) : optio
           | _, _ => None
           end
       end
+  end.
+
+(* byte length of the token according to c13_interp_token_span (txt = token text from the s/f prefix on) *)
+Definition token_len (T : tables) (txt : str) : option nat :=
+  match txt with
+  | [] => None
+  | c :: body => match interp_items T body with
+                 | Some (n, items) => Some (Span.utf8_len c + quote_bytes n + all_src items)
+                 | None => None
+                 end
   end.
